@@ -65,8 +65,9 @@ KINDS = ['CIMInstanceName', 'CIMClassName', 'CIMInstance', 'CIMClass', 'CIMPrope
          'CIMParameter', 'CIMQualifier', 'CIMQualifierDeclaration', 'CIMDateTime', 'NocaseDict']
 VIAS = ['copy()', 'copy.copy', 'copy.deepcopy', 'pickle0', 'pickle1', 'pickle2', 'pickle3',
         'pickle4', 'pickle5']
-HASH_PARTS = 4
+HASH_PARTS = {'quick': 4, 'thorough': 16}
 COPY_PARTS = {'quick': 4, 'thorough': 8}
+HEAVY = {'CIMClass': 4, 'CIMInstance': 3, 'CIMProperty': 2, 'CIMParameter': 2, 'CIMMethod': 2}   # x parts
 
 
 # ==========================================================================================
@@ -774,7 +775,10 @@ def pool(kind, tier):
             if BOUNDS[tier]['variations_per_object'] >= 2 or kind in ('CIMClassName',):
                 reps, seenk = [], set()
                 for v in vs:
-                    k = (v['attr'], v['vc'])
+                    # one representative per (attribute, variation class); nested variations
+                    # are grouped by their declared tag
+                    k = (v['attr'], v['vc'] if not v['vc'].startswith('nested-')
+                         else 'nested:%s' % v['tag'])
                     if k not in seenk:
                         seenk.add(k)
                         reps.append(v)
@@ -831,6 +835,8 @@ def safe(fn):
     """-> (value, None) or (None, exception class name) for exceptions raised by pywbem"""
     try:
         return fn(), None
+    except HarnessError:
+        raise
     except Exception as exc:  # noqa: every exception out of ==, !=, hash is a finding
         return None, type(exc).__name__
 
@@ -845,6 +851,31 @@ def raising_attrs(kind, a, b):
         if safe(lambda: va == vb)[1]:
             out.append(at)
     return out
+
+
+def lex_attrs(kind, a, b):
+    """top-level public attributes whose exact public state differs"""
+    if kind in ('NocaseDict', 'CIMDateTime') or type(a) is not type(b):
+        return ['<items>'] if O.dump(a) != O.dump(b) else []
+    return [at for at in O.ATTRS[kind] if O.dump(getattr(a, at)) != O.dump(getattr(b, at))]
+
+
+def attr_class(attrs):
+    out = set()
+    for at in attrs:
+        out.add('name-attr' if at in O.NAME_ATTRS else
+                'child-collection' if at in O.DICT_ATTRS or at == '<items>' else at)
+    return '+'.join(sorted(out)) or '<none>'
+
+
+def var_class(ea, eb):
+    vcs = set(ea['vcs']) ^ set(eb['vcs']) if ea['fam'] == eb['fam'] else set(ea['vcs']) | set(eb['vcs'])
+    out = set()
+    for vc in vcs - {'base'}:
+        vc = vc.replace('nested-', '').replace('list-elem-', '')
+        out.add('case' if 'case' in vc and 'special' not in vc and vc != 'value-case' else
+                'order' if vc == 'order' else vc)
+    return '+'.join(sorted(out)) or '<none>'
 
 
 def pair_sig_fields(kind, a, b):
@@ -885,8 +916,8 @@ def check_pair_eq(kind, ea, eb, acc, laws=('eq',)):
             out = 'eq:%s:%s' % (rel, ab)
             if rel == 'same' and not ab:
                 acc.violation(dict(check='eq-expected', what='unequal-but-only-ignorable-differences',
-                                   kind=kind, attr='+'.join(sorted(set(ea['attrs'] + eb['attrs']))) or '<none>',
-                                   varclass='+'.join(sorted(set(ea['vcs'] + eb['vcs']) - {'base'})) or '<none>'),
+                                   kind=kind, attr='+'.join(lex_attrs(kind, a, b)) or '<none>',
+                                   varclass=var_class(ea, eb)),
                               pair_case(kind, ea, eb, 'eq'), True, ab)
             elif rel == 'different' and ab:
                 acc.violation(dict(check='eq-expected', what='equal-but-public-attribute-differs',
@@ -910,10 +941,10 @@ def check_pair_eq(kind, ea, eb, acc, laws=('eq',)):
                           pair_case(kind, ea, eb, 'hash'), 'int', exc)
             out = 'hash:raises'
         else:
-            if ab and hs[0] != hs[1]:
-                acc.violation(dict(check='hash', what='equal-but-hash-differs',
-                                   kind=kind, attr='+'.join(sorted(set(ea['attrs'] + eb['attrs']))) or '<none>',
-                                   varclass='+'.join(sorted(set(ea['vcs'] + eb['vcs']) - {'base'})) or '<none>'),
+            wrongly_equal = ab and not same_obj and relation(ea, eb) == 'different'
+            if ab and hs[0] != hs[1] and not wrongly_equal:
+                acc.violation(dict(check='hash', what='equal-but-hash-differs', kind=kind,
+                                   attr=attr_class(lex_attrs(kind, a, b))),
                               pair_case(kind, ea, eb, 'hash'), 'hash(a) == hash(b)', 'differs')
                 out = 'hash:equal-objects-different-hash'
             mem, exc = safe(lambda: ((b in {a}), ({a: 1}.get(b) == 1), (b in [a])))
@@ -921,7 +952,7 @@ def check_pair_eq(kind, ea, eb, acc, laws=('eq',)):
                 acc.violation(dict(check='hash', what='membership-raises:%s' % exc,
                                    **pair_sig_fields(kind, a, b)),
                               pair_case(kind, ea, eb, 'hash'), ab, exc)
-            elif mem != (ab, ab, ab) and not (ab and hs[0] != hs[1]):
+            elif mem != (ab, ab, ab) and not (ab and hs[0] != hs[1]) and not wrongly_equal:
                 acc.violation(dict(check='hash', what='membership-disagrees-with-eq',
                                    **pair_sig_fields(kind, a, b)),
                               pair_case(kind, ea, eb, 'hash'), [ab] * 3, list(mem))
@@ -961,6 +992,29 @@ def reduce_entries(kind, tier, ea, eb, pred):
     return (best[1], best[2]) if best else (ea, eb)
 
 
+def pair_reduced(kind, tier, ea, eb, laws):
+    """evaluate the pair; a violating pair of multi-variation objects is replaced by the smallest
+    sub-pair (subsets of the variations) showing the same failure classes"""
+    def ev(xa, xb):
+        t = Acc()
+        r = check_pair_eq(kind, xa, xb, t, laws=laws)
+        if 'eq' not in laws:        # exceptions out of == are reported by the eq shard only
+            t.violations = {k: v for k, v in t.violations.items() if v['sig']['check'] != 'eq-laws'}
+            t.outcomes = {k: v for k, v in t.outcomes.items() if not k.startswith('eq:')}
+        return t, r
+    sub, ab = ev(ea, eb)
+    if sub.violations and len(ea['vars']) + len(eb['vars']) > 1:
+        whats = set((v['sig']['check'], v['sig']['what']) for v in sub.violations.values())
+
+        def pred(xa, xb):
+            t, _ = ev(xa, xb)
+            return whats <= set((v['sig']['check'], v['sig']['what']) for v in t.violations.values())
+        xa, xb = reduce_entries(kind, tier, ea, eb, pred)
+        if xa is not ea or xb is not eb:
+            sub.violations = ev(xa, xb)[0].violations
+    return sub, ab
+
+
 def run_eq_matrix(kind, tier, acc):
     built, rejected = pool(kind, tier)
     n = len(built)
@@ -972,20 +1026,7 @@ def run_eq_matrix(kind, tier, acc):
     for i, ea in enumerate(built):
         row = []
         for j, eb in enumerate(built):
-            sub = Acc()
-            ab = check_pair_eq(kind, ea, eb, sub)
-            if sub.violations and len(ea['vars']) + len(eb['vars']) > 1:
-                sigs = set(v['sig']['what'] for v in sub.violations.values())
-
-                def pred(xa, xb):
-                    t = Acc()
-                    check_pair_eq(kind, xa, xb, t)
-                    return sigs <= set(v['sig']['what'] for v in t.violations.values())
-                xa, xb = reduce_entries(kind, tier, ea, eb, pred)
-                if xa is not ea or xb is not eb:
-                    t = Acc()
-                    check_pair_eq(kind, xa, xb, t)
-                    sub.violations = t.violations
+            sub, ab = pair_reduced(kind, tier, ea, eb, ('eq',))
             acc.merge(sub)
             row.append(ab)
         rows.append(tuple(row))
@@ -1017,6 +1058,16 @@ def run_eq_matrix(kind, tier, acc):
         acc.case(('trans', kind, i), outcome='row:symmetric+transitive-checked', calls=0,
                  nontrivial=eqs > 1)
         acc.count('triples-with-a==b:%s' % kind, (eqs - 1) * n if eqs else 0)
+    if kind == 'CIMInstanceName':
+        # samples come from exactly one shard, so that the evidence does not depend on merge order
+        want = ['same', 'different', 'unspecified']
+        for j in range(1, n):
+            rel = relation(built[0], built[j])
+            if rel in want and built[j]['fam'] == 0:
+                want.remove(rel)
+                acc.samples.append(dict(a=built[0]['spec'], b=built[j]['spec'], variation=built[j]['vars'],
+                                        reference_model=rel, observed_eq=rows[0][j],
+                                        hash_equal=hash(built[0]['obj']) == hash(built[j]['obj'])))
     classes = len(set(rows))
     acc.count('equivalence-classes:%s' % kind, classes)
     acc.states += n
@@ -1028,12 +1079,7 @@ def run_hash_rows(kind, tier, part, of, acc):
         if i % of != part:
             continue
         for eb in built:
-            sub = Acc()
-            check_pair_eq(kind, ea, eb, sub, laws=('hash',))
-            # eq-raise findings are reported by the eq shard
-            sub.violations = {k: v for k, v in sub.violations.items() if v['sig']['check'] != 'eq-laws'}
-            sub.outcomes = {k: v for k, v in sub.outcomes.items() if not k.startswith('eq:')}
-            acc.merge(sub)
+            acc.merge(pair_reduced(kind, tier, ea, eb, ('hash',))[0])
 
 
 # ==========================================================================================
@@ -1089,13 +1135,13 @@ def check_copy_equal(kind, spec, obj, via, acc):
                       'a new object', 'the same object')
     eqs, exc = safe(lambda: (c == obj, obj == c, c != obj))
     if exc:
-        ok = False
         acc.violation(dict(sig0, what='eq-raises:%s' % exc), copy_case(kind, spec, via), True, exc)
+        acc.case(key, outcome='copy:%s:VIOLATION' % via_class(via), calls=8)
+        return False
     elif eqs != (True, True, False):
         ok = False
-        d = O.dump_diff(before, O.dump(c)) if isinstance(c, (VendorNocaseDict,) + O.CIM_CLASSES +
-                                                      (type(obj),)) else '<type>'
-        acc.violation(dict(sig0, what='copy-not-equal', attr=d), copy_case(kind, spec, via),
+        d = safe(lambda: O.dump_diff(before, O.dump(c)))[0] if type(c) is type(obj) else '<type>'
+        acc.violation(dict(sig0, what='copy-not-equal', attr=d or '<none>'), copy_case(kind, spec, via),
                       [True, True, False], list(eqs))
     if type(c) is not type(obj):
         ok = False
@@ -1104,7 +1150,12 @@ def check_copy_equal(kind, spec, obj, via, acc):
                       copy_case(kind, spec, via), type(obj).__module__ + '.' + type(obj).__name__,
                       type(c).__module__ + '.' + type(c).__name__)
     else:
-        dc = O.dump(c)
+        dc, exc = safe(lambda: O.dump(c))
+        if exc:
+            acc.violation(dict(sig0, what='copy-state-unreadable:%s' % exc), copy_case(kind, spec, via),
+                          'readable public attributes', exc)
+            acc.case(key, outcome='copy:%s:VIOLATION' % via_class(via), calls=8)
+            return False
         if dc != before:
             ok = False
             acc.violation(dict(sig0, what='public-state-differs', attr=O.dump_diff(before, dc)),
@@ -1180,11 +1231,10 @@ def structure_key(obj):
 
 def run_copy(kind, tier, part, of, acc):
     built, _ = pool(kind, tier)
-    singles = [e for e in built if len(e['vars']) <= 1]
     seen_struct = set()
     k = 0
     for e in built:
-        full = e in singles if tier == 'thorough' else False
+        full = len(e['vars']) <= 1 if tier == 'thorough' else False
         sk = None
         if not full:
             sk = structure_key(e['obj'])
@@ -1208,10 +1258,14 @@ def plan(tier, seed):
     shards = []
     for kind in KINDS:
         shards.append(dict(check='eq', kind=kind))
-        for p in range(HASH_PARTS):
-            shards.append(dict(check='hash', kind=kind, part=p, of=HASH_PARTS))
-        for p in range(COPY_PARTS[tier]):
-            shards.append(dict(check='copy', kind=kind, part=p, of=COPY_PARTS[tier]))
+        for p in range(HASH_PARTS[tier]):
+            shards.append(dict(check='hash', kind=kind, part=p, of=HASH_PARTS[tier]))
+        ncopy = COPY_PARTS[tier] * HEAVY.get(kind, 1)
+        for p in range(ncopy):
+            shards.append(dict(check='copy', kind=kind, part=p, of=ncopy))
+    # heaviest first (copy shards of the big kinds), so that the pool drains evenly
+    shards.sort(key=lambda sh: (-HEAVY.get(sh['kind'], 1) * (3 if sh['check'] == 'copy' else 1),
+                                KINDS.index(sh['kind']), sh['check'], sh.get('part', 0)))
     return shards
 
 
